@@ -24,7 +24,7 @@ CLAIM = dict(cat="proof", design="§3 C10 (shares §3 C04 machinery)",
         "binary64 model == the real sweeps bit for bit on 6+ layouts x periodic/walls x 4 initial states; read/write sets of the real operations observed by perturbing one field at a time lie inside "
         "the declared sets, and accumulating operations satisfy result == fl(previous +/- contribution) bit for bit. Oracle on the real code: 6 layouts x 3 task orders agree to <= 1e-12 of the field scale "
         "with the undivided sequential sweep after several steps, repeated sequential runs are bit-identical, two faces sharing a cell commute. Task-table tie (shared with C07, theorem C07_phases_ordered): on every run the REAL hydro task tables of several layouts are dumped and every pair of tasks in consecutive phases that touch a common subgrid must be connected by a dependency path; otherwise a legal order of the REAL task objects that starts the later task first is executed and reported as the failing history.",
-   note="Trusted: Coq kernel + standard real-number axioms incl. functional extensionality (states are functions); extraction + OCaml driver for the correspondences. "
+   note="Driver-side ties without a model: the turbulence-forcing kick (real AlveliusTurbulenceForcing through the driver's atomic-counter loop, sequential vs 2-8 threads, bit-identical); task-table phase order executed on the real task objects. Trusted: Coq kernel + standard real-number axioms incl. functional extensionality (states are functions); extraction + OCaml driver for the correspondences. "
         "Premise (a) phases_ordered is proved in C07, not here: C07_phases_ordered (for every layout and periodicity, any two tasks of the hydro task table that touch the same subgrid and lie in consecutive "
         "phases gradient sweeps -> slope limiter -> primitive prediction -> flux sweeps -> conserved update -> primitive update are linked by a direct child edge, and every phase has a task on every subgrid) and "
         "C07_phases_ordered_in_every_run (hence, for every thread count and schedule, a task touching a subgrid starts only after all earlier-phase tasks touching it have stopped); it is tied to the code on every run "
